@@ -128,16 +128,16 @@ def io_obligations(P):
     obs = []
     site = "src/bldfm/io.py::save_footprints_to_netcdf"
     n_time = 2
-    for is3d in (False, True):
-        for z0 in (False, True):
+    for is3d, z0, order in [(a, b, [1, 0]) for a in (False, True) for b in (False, True)] + [(False, False, [1]), (True, True, [1])]:
+        if True:
             cfg = CM.make_obj(P, "BLDFMConfig", "config", {})
-            order = [1, 0]  # results keyed in another order than config.towers
+            # results keyed in another order than config.towers; and a result set for one tower only (not the first configured)
             results, shape = _results(P, cfg, order, n_time, is3d, z0)
             rec = Recorder()
             fp = alg.sym("filepath")
             res = CM.run_paths(P, "bldfm.io", "save_footprints_to_netcdf", [results, cfg, fp], {}, stubs=rec.stubs())
             rets = [r for r in res if r.kind == "return"]
-            tag = "(%s, %s)" % ("3-D" if is3d else "2-D", "z0 forcing" if z0 else "ustar forcing")
+            tag = "(%s, %s%s)" % ("3-D" if is3d else "2-D", "z0 forcing" if z0 else "ustar forcing", "" if len(order) > 1 else ", one tower")
             if not rets:
                 obs.append(req_ob("R-NC-PLACE", site, "export is interpretable %s" % tag, None, detail=str([(r.kind, r.raise_desc) for r in res])[:300]))
                 continue
